@@ -27,7 +27,7 @@ import struct
 
 from hypothesis import strategies as st
 
-from vlib import tools
+from vlib import patient, tools
 from vlib import elf as E
 from vlib.core import Check, Discard, Inconclusive, OracleSplit, Violation
 from vlib.elf import Elf
@@ -430,15 +430,15 @@ def build_inputs(case, syms, d):
         if i == 0:
             text += [".globl _start", ".type _start,@function", "_start:", "  ret"]
         text += [".text", f".Lrefs{i}:"] + refs[i] + tus[i] + [".section .note.GNU-stack,\"\",@progbits"]
-        tools.asm("\n".join(text) + "\n", f"t{i}.o", cwd=d)
+        patient.asm("\n".join(text) + "\n", f"t{i}.o", cwd=d)
         objs.append(f"t{i}.o")
     members = []
     for m in (0, 1):
         if ars[m]:
-            tools.asm("\n".join(ars[m] + [".section .note.GNU-stack,\"\",@progbits"]) + "\n", f"m{m}.o", cwd=d)
+            patient.asm("\n".join(ars[m] + [".section .note.GNU-stack,\"\",@progbits"]) + "\n", f"m{m}.o", cwd=d)
             members.append(f"m{m}.o")
     if members:
-        tools.ar("libar.a", members, cwd=d)
+        patient.ar("libar.a", members, cwd=d)
         objs.append("libar.a")
     dep = [".text"]
     for k in range(len(case["imports"])):
@@ -450,8 +450,8 @@ def build_inputs(case, syms, d):
             dep += [".data", f".globl {s.name}", f".type {s.name},{TYPE_DIRECTIVE.get(s.type, '@notype')}",
                     f"{s.name}:", "  .quad 0", f".size {s.name}, 8", ".text"]
     dep.append(".section .note.GNU-stack,\"\",@progbits")
-    tools.asm("\n".join(dep) + "\n", "dep.o", cwd=d)
-    tools.must(tools.link("ld", ["-shared", "-o", "libdep.so", "-soname", "libdep.so", "dep.o"], cwd=d), "building libdep.so")
+    patient.asm("\n".join(dep) + "\n", "dep.o", cwd=d)
+    tools.must(patient.link("ld", ["-shared", "-o", "libdep.so", "-soname", "libdep.so", "dep.o"], cwd=d), "building libdep.so")
     objs.append("libdep.so")
     return objs
 
@@ -685,10 +685,10 @@ class C31(Check):
         syms = normalise(case)
         objs = build_inputs(case, syms, d)
         args = link_args(case, syms, d)
-        rl = tools.link("ld", [*args, *objs, "-o", "out.ld"], cwd=d)
+        rl = patient.link("ld", [*args, *objs, "-o", "out.ld"], cwd=d)
         if rl.rc != 0:
             raise Discard("GNU ld rejects: " + (rl.err.strip().split("\n")[-1].split(": ", 1)[-1])[:40])
-        rw = tools.link("wild", [*args, *objs, "-o", "out.wild"], cwd=d)
+        rw = patient.link("wild", [*args, *objs, "-o", "out.wild"], cwd=d)
         if rw.timed_out:
             raise Inconclusive("wild timed out")
         if rw.rc != 0:
